@@ -207,7 +207,7 @@ def classify(case):
 def plan(tier, seed):
     if tier == "quick":
         return [{"kind": "faults", "examples": 40, "seed": seed * 1000 + k} for k in range(16)]
-    return [{"kind": "faults", "examples": 200, "seed": seed * 1000 + k} for k in range(16)]
+    return [{"kind": "faults", "examples": 600, "seed": seed * 1000 + k} for k in range(16)]
 
 
 def run_shard(spec) -> ShardResult:
